@@ -244,14 +244,14 @@ pub fn gen(tier: &str, seed: u64, out: &mut dyn FnMut(Value)) {
         out(json!({"op": "hexparse", "ts": chunk, "tag": "0x text", "nt": true}));
     }
     // text, paths, options
-    let ss = ["", "a", "C:\\Windows\\System32", "/bin/ls", "\u{e9}\u{10ffff}", "none", "42", " spaced ", "a\nb", "\"q\"", "8.8.8.8"];
+    let ss = ["", "a", "C:\\Windows\\System32", "/tmp/a\\b", "\\", "\\\\host\\share\\", "a/b\\c/d", "//", "/./x/../y", "~/x", "a\tb", "/bin/ls", "\u{e9}\u{10ffff}", "none", "42", " spaced ", "a\nb", "\"q\"", "8.8.8.8"];
     out(json!({"op": "textconv", "ss": ss, "tag": "text / path / Option", "nt": true}));
     // paths by their bytes, valid UTF-8 or not; the expected text is std's lossy decoding
     let mut paths = vec![];
     let mut byte_sets: Vec<Vec<u8>> = vec![b"/bin/ls".to_vec(), b"/tmp/\xffx".to_vec(), b"\xff".to_vec(), b"/a/\xc3".to_vec(), b"/a/\xc3\xa9".to_vec(), b"\xed\xa0\x80".to_vec(), b"rel/\xf0\x9f".to_vec(), vec![]];
     for _ in 0..60 {
         let n = 1 + rng.below(8);
-        byte_sets.push((0..n).map(|_| *rng.pick(&[b'/', b'a', 0xffu8, 0xc3, 0xa9, 0x80, 0xf0, 0x9f, 0x92, 0xa9, b'.', b' '])).collect());
+        byte_sets.push((0..n).map(|_| *rng.pick(&[b'/', b'a', 0xffu8, 0xc3, 0xa9, 0x80, 0xf0, 0x9f, 0x92, 0xa9, b'.', b' ', b'\\', b'\\', b':', b'\n'])).collect());
     }
     for b in byte_sets {
         if b.contains(&0) {
